@@ -166,40 +166,120 @@ Example C01_nonvacuous :
   check (model_trace (ex_cfg FBase) ex_univ 100 ex_calls) = (0%N, 0%N, 0%N).
 Proof. vm_compute. repeat split. Qed.
 
-(* the monitor rejects bad traces: take the model's own trace and corrupt one observation *)
+(* ---- non-vacuity for the other flavours: successful flavour-specific calls, invariants, monitor ---- *)
+Definition cf (f : flavour) (off : Z) : cfg := {| c_host := default_cfg 5000; c_flav := f; c_self := 3%N; c_offset := off |}.
+Definition vault_calls : list call :=
+  [AssetMint 0%N 1000; VDeposit [0%N] [0%N] 100 1%N 0%N 0%N; VMint [0%N] [0%N] 10 0%N 0%N 0%N;
+   VRedeem [1%N] 40000 2%N 1%N 1%N; VWithdraw [1%N] 5 0%N 1%N 1%N; Transfer [1%N] 1%N 1%N None 60; VDeposit [] [] 5 0%N 0%N 0%N].
+Example C01_nonvacuous_vault :
+  let s := run (cf FVault 3) (init 10) vault_calls in
+  supply (tk s) = 55089 /\ length (hist s) = 5%nat /\ balance (asset s) 3%N = 56 /\
+  check (model_trace (cf FVault 3) ex_univ 10 vault_calls) = (0%N, 0%N, 0%N).
+Proof. vm_compute. repeat split. Qed.
+Definition rwa_calls : list call :=
+  [Mint 0%N 100; RFreeze 0%N 60; RForcedTransfer 0%N 1%N 70; RBurn 0%N 25; RSetRecovery 1%N 1%N; RRecover 1%N 1%N;
+   RSetRecovery 1%N 2%N; RFreeze 1%N 20; RSetFrozen 1%N true; RRecover 1%N 2%N; Transfer [2%N] 2%N 0%N None 1;
+   RPause true; Transfer [0%N] 0%N 2%N None 1].
+Example C01_nonvacuous_rwa :
+  let s := run (cf FRwa 0) (init 10) rwa_calls in
+  supply (tk s) = 75 /\ balance (tk s) 2%N = 70 /\ balance (tk s) 1%N = 0 /\ length (hist s) = 5%nat /\ frozen_of s 2%N = 20 /\
+  check (model_trace (cf FRwa 0) ex_univ 10 rwa_calls) = (0%N, 0%N, 0%N).
+Proof. vm_compute. repeat split. Qed.
+Definition votes_calls : list call :=
+  [Mint 0%N 100; Delegate [0%N] 0%N 1%N; Transfer [0%N] 0%N 0%N None 100; Transfer [0%N] 0%N 2%N None 30; Burn [2%N] 2%N 30; Mint 1%N MAX128].
+Example C01_nonvacuous_votes :
+  let s := run (cf FVotes 0) (init 10) votes_calls in
+  supply (tk s) = 70 /\ getd (units s) 0%N = 70 /\ getd (dvotes s) 1%N = 70 /\ tsvotes s = 70 /\
+  check (model_trace (cf FVotes 0) ex_univ 10 votes_calls) = (0%N, 0%N, 0%N).
+Proof. vm_compute. repeat split. Qed.
+Definition list_calls : list call :=
+  [Mint 0%N 50; Transfer [0%N] 0%N 1%N None 5; SetListed 0%N true; SetListed 1%N true; Transfer [0%N] 0%N 1%N None 5; Burn [1%N] 1%N 2].
+Example C01_nonvacuous_allow_block :
+  supply (tk (run (cf FAllow 0) (init 10) list_calls)) = 48 /\ supply (tk (run (cf FBlock 0) (init 10) list_calls)) = 50 /\
+  check (model_trace (cf FAllow 0) ex_univ 10 list_calls) = (0%N, 0%N, 0%N) /\
+  check (model_trace (cf FBlock 0) ex_univ 10 list_calls) = (0%N, 0%N, 0%N).
+Proof. vm_compute. repeat split. Qed.
+
+(* ---- the monitor rejects bad traces ---- *)
+(* (a) the model's own trace with one item corrupted *)
 Definition corrupt (f : item -> item) (k : nat) (t : trace) : trace :=
-  {| t_cfg := t_cfg t; t_univ := t_univ t; t_start := t_start t;
+  {| t_cfg := t_cfg t; t_univ := t_univ t; t_start := t_start t; t_init := t_init t;
      t_items := firstn k (t_items t) ++ match skipn k (t_items t) with [] => [] | it :: r => f it :: r end |}.
 Definition ex_trace : trace := model_trace (ex_cfg FBase) ex_univ 100 ex_calls.
+Definition set_bal_obs (o : obs) (b : list (addr * Z)) : obs :=
+  {| o_now := o_now o; o_supply := o_supply o; o_bal := b; o_allow := o_allow o; o_extra := o_extra o |}.
+Definition set_bal1 (a : addr) (v : Z) (l : list (addr * Z)) : list (addr * Z) :=
+  map (fun x => if N.eqb (fst x) a then (a, v) else x) l.
+Definition set_sup_obs (o : obs) (v : Z) : obs :=
+  {| o_now := o_now o; o_supply := v; o_bal := o_bal o; o_allow := o_allow o; o_extra := o_extra o |}.
 
 (* (1) a transfer that creates one unit out of thin air in the recipient's balance *)
 Example C01_monitor_rejects_inflated_balance :
-  c01_monitor (corrupt (fun '(cl, out, evs, o) =>
-     (cl, out, evs, {| o_now := o_now o; o_supply := o_supply o; o_bal := alist_set 2%N 16 (o_bal o);
-                       o_allow := o_allow o; o_extra := o_extra o |})) 2 ex_trace) = 3%N.
+  c01_why (corrupt (fun '(cl, out, evs, o) => (cl, out, evs, set_bal_obs o (set_bal1 2%N 16 (o_bal o)))) 2 ex_trace) = (3%N, 1%N).
 Proof. vm_compute. reflexivity. Qed.
 (* (2) a failing call (transfer without authorisation) that nevertheless moved a token *)
 Example C01_monitor_rejects_failed_call_with_effect :
   c01_monitor (corrupt (fun '(cl, out, evs, o) =>
-     (cl, out, evs, {| o_now := o_now o; o_supply := o_supply o; o_bal := alist_set 0%N 54 (alist_set 1%N 1 (o_bal o));
-                       o_allow := o_allow o; o_extra := o_extra o |})) 6 ex_trace) = 7%N.
+     (cl, out, evs, set_bal_obs o (set_bal1 0%N 54 (set_bal1 1%N 1 (o_bal o))))) 6 ex_trace) = 7%N.
 Proof. vm_compute. reflexivity. Qed.
 (* (3) a burn whose event is missing: balances and supply are consistent, but the event replay no longer reproduces them *)
 Example C01_monitor_rejects_missing_event :
-  c01_monitor (corrupt (fun '(cl, out, evs, o) => (cl, out, [], o)) 4 ex_trace) = 5%N.
+  c01_why (corrupt (fun '(cl, out, evs, o) => (cl, out, [], o)) 4 ex_trace) = (5%N, 5%N).
 Proof. vm_compute. reflexivity. Qed.
 (* (4) a mint that changes the supply by one more than the amount *)
 Example C01_monitor_rejects_wrong_supply :
-  c01_monitor (corrupt (fun '(cl, out, evs, o) =>
-     (cl, out, evs, {| o_now := o_now o; o_supply := o_supply o + 1; o_bal := o_bal o;
-                       o_allow := o_allow o; o_extra := o_extra o |})) 0 ex_trace) = 1%N.
+  c01_monitor (corrupt (fun '(cl, out, evs, o) => (cl, out, evs, set_sup_obs o (o_supply o + 1))) 0 ex_trace) = 1%N.
 Proof. vm_compute. reflexivity. Qed.
-(* (5) persistence: a balance that lapses while time passes (Advance) although no call touched it *)
+(* (5) persistence: a balance / the supply that lapses while time passes (Advance) although no call touched it *)
 Example C01_monitor_rejects_balance_lapsing_over_time :
-  c01_monitor (corrupt (fun '(cl, out, evs, o) =>
-     (cl, out, evs, {| o_now := o_now o; o_supply := o_supply o; o_bal := alist_set 2%N 0 (o_bal o);
-                       o_allow := o_allow o; o_extra := o_extra o |})) 8 ex_trace) = 9%N /\
-  c01_monitor (corrupt (fun '(cl, out, evs, o) =>
-     (cl, out, evs, {| o_now := o_now o; o_supply := 0; o_bal := o_bal o;
-                       o_allow := o_allow o; o_extra := o_extra o |})) 8 ex_trace) = 9%N.
+  c01_monitor (corrupt (fun '(cl, out, evs, o) => (cl, out, evs, set_bal_obs o (set_bal1 2%N 0 (o_bal o)))) 8 ex_trace) = 9%N /\
+  c01_monitor (corrupt (fun '(cl, out, evs, o) => (cl, out, evs, set_sup_obs o 0)) 8 ex_trace) = 9%N.
 Proof. vm_compute. split; reflexivity. Qed.
+
+(* (b) hand-written traces (from the adversarial review of this check) *)
+Definition ob (now sup : Z) (b : list (addr * Z)) (al : list (pkey * (Z * Z * Z))) (ex : list Z) : obs :=
+  {| o_now := now; o_supply := sup; o_bal := b; o_allow := al; o_extra := ex |}.
+Definition B (a b c d : Z) : list (addr * Z) := [(0%N, a); (1%N, b); (2%N, c); (3%N, d)].
+Definition T (f : flavour) (x0 : list Z) (its : list item) : trace :=
+  {| t_cfg := cf f 0; t_univ := ex_univ; t_start := 10; t_init := ob 10 0 (B 0 0 0 0) [] x0; t_items := its |}.
+Definition mint100 : item := (Mint 0%N 100, Ok 0, [EMint 0%N 100], ob 10 100 (B 100 0 0 0) [] []).
+
+(* (6) the answers of the public getters total_supply() / balance() must be the observed values *)
+Example C01_monitor_rejects_wrong_getter_answers :
+  c01_why (T FBase [] [mint100; (QSupply, Ok 999, [], ob 10 100 (B 100 0 0 0) [] [])]) = (2%N, 7%N) /\
+  c01_why (T FBase [] [mint100; (QBalance 0%N, Ok (-5), [], ob 10 100 (B 100 0 0 0) [] [])]) = (2%N, 7%N) /\
+  c01_why (T FBase [] [mint100; (QBalance 1%N, Ok 77, [], ob 10 100 (B 100 0 0 0) [] [])]) = (2%N, 7%N) /\
+  c01_why (T FBase [] [mint100; (QSupply, Ok 100, [], ob 10 100 (B 100 0 0 0) [] [])]) = (0%N, 0%N).
+Proof. vm_compute. repeat split. Qed.
+(* (7) a failing call may not change flavour state either: a failing vault deposit that pulled assets, a
+   failing RWA freeze that froze and paused, a failing transfer that moved voting units *)
+Example C01_monitor_rejects_failing_call_changing_flavour_state :
+  c01_why (T FVault [0;0;0;0] [ (AssetMint 0%N 1000, Ok 0, [], ob 10 0 (B 0 0 0 0) [] [1000;0;0;0]);
+       (VDeposit [0%N] [0%N] 500 0%N 0%N 0%N, Fail, [], ob 10 0 (B 0 0 0 0) [] [500;0;0;500]) ]) = (2%N, 7%N) /\
+  c01_why (T FRwa [0;0;0;0;0;0;0;0;0] [ (Mint 0%N 100, Ok 0, [EMint 0%N 100], ob 10 100 (B 100 0 0 0) [] [0;0;0;0;0;0;0;0;0]);
+       (RFreeze 0%N 1000, Fail, [], ob 10 100 (B 100 0 0 0) [] [1;1000;1;0;0;0;0;0;0]) ]) = (2%N, 7%N) /\
+  c01_why (T FVotes [0; 0;0;-1; 0;0;-1; 0;0;-1; 0;0;-1]
+     [ (Mint 0%N 100, Ok 0, [EMint 0%N 100], ob 10 100 (B 100 0 0 0) [] [100; 100;0;-1; 0;0;-1; 0;0;-1; 0;0;-1]);
+       (Transfer [] 0%N 1%N None 5, Fail, [], ob 10 100 (B 100 0 0 0) [] [100; 95;0;-1; 5;0;-1; 0;0;-1; 0;0;-1]) ]) = (2%N, 7%N).
+Proof. vm_compute. repeat split. Qed.
+(* (8) events naming unobserved accounts, or carrying negative amounts (a burn reported as a negative mint) *)
+Example C01_monitor_rejects_unobserved_or_negative_events :
+  c01_why (T FBase [] [mint100; (Approve [0%N] 0%N 1%N 0 0, Ok 0, [EApprove 0%N 1%N 0 0; ETransfer 999%N 998%N None 12345],
+                                 ob 10 100 (B 100 0 0 0) [((0%N,1%N),((0,0),10))] [])]) = (2%N, 8%N) /\
+  c01_why (T FBase [] [mint100; (Burn [0%N] 0%N 5, Ok 0, [EMint 0%N (-5)], ob 10 95 (B 95 0 0 0) [] [])]) = (2%N, 8%N).
+Proof. vm_compute. repeat split. Qed.
+(* (9) the header and the shape of observations are checked, not trusted: accounts missing from the
+   observed universe, an empty universe, duplicated balance keys, a non-empty genesis, a moving clock *)
+Example C01_monitor_rejects_malformed_traces :
+  c01_why {| t_cfg := cf FBase 0; t_univ := [0%N]; t_start := 10; t_init := ob 10 0 [(0%N,0)] [] [];
+             t_items := [ (Mint 0%N 100, Ok 0, [EMint 0%N 100], ob 10 100 [(0%N,100)] [] []);
+                          (Transfer [] 5%N 6%N None 50, Ok 0, [], ob 10 100 [(0%N,100)] [] []) ] |} = (2%N, 7%N) /\
+  c01_why {| t_cfg := cf FBase 0; t_univ := []; t_start := 10; t_init := ob 10 0 [] [] [];
+             t_items := [ (Transfer [] 5%N 6%N None 50, Ok 0, [ETransfer 1%N 2%N None 7], ob 10 0 [] [] []) ] |} = (1%N, 7%N) /\
+  c01_why (T FBase [] [ (Mint 0%N 100, Ok 0, [EMint 0%N 100],
+                         ob 10 100 [(0%N,100);(1%N,0);(2%N,0);(3%N,0);(1%N,-40);(2%N,900)] [] []) ]) = (1%N, 7%N) /\
+  c01_why {| t_cfg := cf FBase 0; t_univ := ex_univ; t_start := 10; t_init := ob 10 7 (B 7 0 0 0) [] []; t_items := [] |} = (1%N, 9%N) /\
+  c01_why (T FBase [] [mint100; (Transfer [0%N] 0%N 1%N None 5, Ok 0, [ETransfer 0%N 1%N None 5], ob 11 100 (B 95 5 0 0) [] [])]) = (2%N, 7%N) /\
+  (* what the harness emits when a trace is lost to a panic in harness code *)
+  check {| t_cfg := cf FBase 0; t_univ := []; t_start := 0; t_init := ob 0 (-7777777) [] [] []; t_items := [] |} = (1%N, 1%N, 0%N).
+Proof. vm_compute. repeat split. Qed.
